@@ -120,7 +120,10 @@ Definition apply_feed (st : jstate) (f : j_feed) : jstate :=
 Definition ssort (l : list string) : list string := isort string String.ltb l.
 
 (* selection and output (journal.go:151-169) *)
-Definition selected (a b : Z) (tr : j_trip) : bool := negb (jt_start tr <? a) && negb (b <? jt_start tr) && jt_assigned tr.
+(* the window bounds a, b are instants in NANOSECONDS since the epoch (Go's time.Time is nanosecond-precise and the caller
+   may pass any instants); the trip's start is a whole-second instant (start date + HH:MM:SS offset) *)
+Definition ns (sec : Z) : Z := sec * 1000000000.
+Definition selected (a b : Z) (tr : j_trip) : bool := negb (ns (jt_start tr) <? a) && negb (b <? ns (jt_start tr)) && jt_assigned tr.
 Definition journal_of (st : jstate) (a b : Z) : list j_trip :=
   let ids := ssort (map fst (filter (fun kv => selected a b (snd kv)) (st_trips st))) in
   flat_map (fun uid => match alookup uid (st_trips st) with Some tr => [tr] | None => [] end) ids.
